@@ -5,7 +5,9 @@
 (*   table   - focus level L: every action x target present/absent x       *)
 (*             matching/mismatching old value, name and comment, under a   *)
 (*             parent that is kept / edited                                *)
-(*   pair    - all pairs (A,B) of trees with one key per level             *)
+(*   pair    - all pairs (A,B) of trees with one key per level; all pairs  *)
+(*             differing in comments of field / parameter / method / class *)
+(*             only (PickL)                                                *)
 (*   corrupt - a valid diff(A,B) with one action replaced by any other     *)
 (* Every case is judged by ApplyLaw / InverseLaw and emitted as a vector   *)
 (* for replay through the real code.                                       *)
@@ -114,6 +116,18 @@ PickP ==
         /\ A' = a /\ B' = b
         /\ D' = IF Diffable(a, b, T) THEN Diff(a, b, T).v ELSE <<>>
         /\ phase' = IF Diffable(a, b, T) THEN "pair" ELSE "undiffable"
+(* pairs that differ in nothing but comments of leaves (field, parameter) and of the levels above them: a class whose *)
+(* only change is the comment of a parameter still is a change                                                        *)
+LD == {<<>>, <<"d">>, <<"e">>}
+TreeSetL == {Root(NS, <<>>, MapOf({Class(<<"K", "x">>, dc, MapOf({Field(<<"f", "x">>, "I", df)})
+                                                       @@ MapOf({Method(<<"m", "x">>, "()V", dm, MapOf({Param(0, <<"", "x">>, dp)}))}))})) :
+                dc \in {<<>>, <<"d">>}, df \in LD, dm \in {<<>>, <<"d">>}, dp \in LD}
+PickL ==
+    /\ phase = "start"
+    /\ \E a \in TreeSetL, b \in TreeSetL :
+        /\ A' = a /\ B' = b
+        /\ D' = IF Diffable(a, b, T) THEN Diff(a, b, T).v ELSE <<>>
+        /\ phase' = IF Diffable(a, b, T) THEN "pair" ELSE "undiffable"
 CorruptOK == IF Tier = 0 THEN A = B ELSE (A = B \/ SizeKids(B.kids) <= 1 \/ SizeKids(A.kids) <= 1)
 Corrupt ==
     /\ phase = "pair" /\ CorruptOK
@@ -121,7 +135,7 @@ Corrupt ==
     /\ phase' = "corrupt"
     /\ UNCHANGED <<A, B>>
 
-Next == PickTable \/ PickA \/ PickB \/ PickP \/ Corrupt
+Next == PickTable \/ PickA \/ PickB \/ PickP \/ PickL \/ Corrupt
 Spec == Init /\ [][Next]_vars
 
 ---------------------------------------------------------------------------
